@@ -2,6 +2,7 @@
    AND/OR/NOT, grouping by target precedence, in-list shortcut, expansions, exists/NOT forms). *)
 From Coq Require Import List Arith Bool.
 From PS Require Import Model.Backend Spec.Target Proofs.BackendP Proofs.BackendMainP Proofs.BackendDomP.
+From PS Require Import Base.Outcome Model.SString Model.StrOp Spec.Items Proofs.StrOpP.
 Import ListNotations.
 
 (* For every backend configuration (any of the six precedence orders, parenthesize, in-list
@@ -36,3 +37,15 @@ Print Assumptions C01_noteq_notexists_refuted.
 Theorem C01_notexists_loose_not_refuted : exists c asg, tparse lvl_odd asg (conv K_odd false c) <> Some (den asg c).
 Proof. exact notexists_loose_not_refuted. Qed.
 Print Assumptions C01_notexists_loose_not_refuted.
+
+(* string operator selection (startswith / endswith / contains / wildcard-match / equals shortcuts):
+   whichever template is chosen, operator + sliced value denote the source pattern - as item lists
+   (except the single '*' rendered as contains "", which is '**'), hence for every subject string *)
+Theorem C01_string_operator_pattern : forall K v o x, str_op K v = (o, Ok x) ->
+  pattern o (items x) = items v \/ (o = OpContains /\ items v = [Multi] /\ items x = []).
+Proof. exact str_op_pattern. Qed.
+Print Assumptions C01_string_operator_pattern.
+Theorem C01_string_operator_sem : forall K v o x, str_op K v = (o, Ok x) ->
+  forall s, wild_match (pattern o (items x)) s = wild_match (items v) s.
+Proof. exact str_op_sem. Qed.
+Print Assumptions C01_string_operator_sem.
